@@ -18,10 +18,11 @@ Proof.
   destruct (accepted_len (N.of_nat len)); [|reflexivity].
   unfold src_dim, side_of_len. cbv zeta. rewrite src_matrix_eq.
   destruct (svd _ _) as [sv|]; [|reflexivity].
-  replace (src_kinv (N.to_nat (N.sqrt (N.of_nat len))) sv) with (sv_kinv (N.to_nat (N.sqrt (N.of_nat len))) sv)
-    by (unfold src_kinv, sv_kinv; rewrite Rplus_0_l; reflexivity).
   rewrite src_result_eq. reflexivity.
 Qed.
+
+Lemma src_normalised_eq n sv : src_normalised n sv = sv_normalised n sv.
+Proof. reflexivity. Qed.
 
 Lemma src_svd_args_pinned : src_svd_args = (false, false, "f64::EPSILON"%string, 10000%N).
 Proof. reflexivity. Qed.
@@ -29,6 +30,7 @@ Proof. reflexivity. Qed.
 Theorem src_code_path :
   forall svd : nat -> (nat -> nat -> R) -> option (nat -> R),
   (forall n M sv, svd n M = Some sv -> is_svd n M sv) ->
+  (forall n M sv, svd n M = Some sv -> forall k, (k < n)%nat -> 0 <= sv k) ->
   forall (len : nat) (a : nat -> cx R),
     match src_schmidt_number svd len a with
     | ErrNotSquare => forall d : nat, len <> (d * d)%nat
@@ -37,8 +39,8 @@ Theorem src_code_path :
     | OkK k => exists d : nat, len = (d * d)%nat /\ trG2 ROps d (mag_matrix d a) <> 0 /\ k = schmidt_K ROps d (mag_matrix d a)
     end.
 Proof.
-  intros svd H len a. rewrite src_schmidt_number_eq.
-  pose proof (schmidt_number_spec svd H len a) as S.
+  intros svd H Hnn len a. rewrite src_schmidt_number_eq.
+  pose proof (schmidt_number_spec svd H Hnn len a) as S.
   destruct (schmidt_number svd len a); [exact S|exact (proj1 S)|exact S|exact S].
 Qed.
 
@@ -49,6 +51,7 @@ Proof. apply src_schmidt_number_eq. Qed.
 Theorem setup_schmidt_number_square :
   forall svd : nat -> (nat -> nat -> R) -> option (nat -> R),
   (forall n M sv, svd n M = Some sv -> is_svd n M sv) ->
+  (forall n M sv, svd n M = Some sv -> forall k, (k < n)%nat -> 0 <= sv k) ->
   forall J g n, g_cols g = n -> g_rows g = n ->
     match setup_schmidt_number svd J g with
     | ErrNotSquare => False
@@ -57,9 +60,9 @@ Theorem setup_schmidt_number_square :
     | OkK k => trG2 ROps n (mag_matrix n (tabulate J g)) <> 0 /\ k = schmidt_K ROps n (mag_matrix n (tabulate J g))
     end.
 Proof.
-  intros svd H J g n Hc Hr. unfold setup_schmidt_number.
+  intros svd H Hnn J g n Hc Hr. unfold setup_schmidt_number.
   assert (HN : grid_len g = (n * n)%nat) by (unfold grid_len; rewrite Hc, Hr; reflexivity).
-  rewrite HN. pose proof (schmidt_number_spec svd H (n * n) (tabulate J g)) as S.
+  rewrite HN. pose proof (schmidt_number_spec svd H Hnn (n * n) (tabulate J g)) as S.
   destruct (schmidt_number svd (n * n) (tabulate J g)).
   - exact (S n eq_refl).
   - destruct S as [_ S]. rewrite side_of_len_square in S. exact S.
@@ -70,6 +73,7 @@ Qed.
 Theorem src_setup_level :
   forall svd : nat -> (nat -> nat -> R) -> option (nat -> R),
   (forall n M sv, svd n M = Some sv -> is_svd n M sv) ->
+  (forall n M sv, svd n M = Some sv -> forall k, (k < n)%nat -> 0 <= sv k) ->
   forall J g n, g_cols g = n -> g_rows g = n ->
     src_setup_schmidt_number svd J g = schmidt_number svd (grid_len g) (tabulate J g) /\
     match src_setup_schmidt_number svd J g with
@@ -79,7 +83,7 @@ Theorem src_setup_level :
     | OkK k => trG2 ROps n (mag_matrix n (tabulate J g)) <> 0 /\ k = schmidt_K ROps n (mag_matrix n (tabulate J g))
     end.
 Proof.
-  intros svd H J g n Hc Hr. split.
+  intros svd H Hnn J g n Hc Hr. split.
   - apply src_setup_schmidt_number_eq.
-  - rewrite src_setup_schmidt_number_eq. apply (setup_schmidt_number_square svd H J g n Hc Hr).
+  - rewrite src_setup_schmidt_number_eq. apply (setup_schmidt_number_square svd H Hnn J g n Hc Hr).
 Qed.
